@@ -27,6 +27,7 @@ package jsonapi
 //@ ensures found: forall i int :: 0 <= i && i < len(s.Types) && s.Types[i].Name == name && (forall j int :: 0 <= j && j < i ==> s.Types[j].Name != name) ==> result == s.Types[i]
 //@ ensures missing: !hasType(s, name) ==> result == zero(type[Type])
 //@ ensures named: hasType(s, name) ==> result.Name == name
+//@ ensures first: hasType(s, name) ==> (exists i int :: isFirst(s, i, name) && result == s.Types[i])
 //@ loop 0 invariant none-so-far: forall k int :: 0 <= k && k <= $idx ==> s.Types[k].Name != name
 
 //@ func Schema.AddType
@@ -126,3 +127,29 @@ package jsonapi
 //@ loop 0 invariant typ1-missing: typ1 == nil ==> (forall k int :: 0 <= k && k <= $idx ==> s.Types[k].Name != rel1.FromType)
 //@ loop 0 invariant typ2-found: typ2 != nil ==> (exists k int :: 0 <= k && k <= $idx && typ2 == addrOf(s.Types, k) && s.Types[k].Name == rel2.FromType)
 //@ loop 0 invariant typ2-missing: typ2 == nil ==> (forall k int :: 0 <= k && k <= $idx ==> s.Types[k].Name != rel2.FromType)
+
+// ---- Schema.Check (C15) ----
+//
+// coherent is transcribed from the property: every relationship's target type
+// exists, and every relationship that names an inverse is declared from its own
+// type and reciprocated by a relationship of the target type that names it back
+// (and points back to the owning type).
+//@ spec isFirst(s *Schema, j int, n string) = 0 <= j && j < len(s.Types) && s.Types[j].Name == n && (forall m int :: 0 <= m && m < j ==> s.Types[m].Name != n)
+//@ spec reciprocates(inv Rel, owner string, rel Rel) = inv.ToName == rel.FromName && inv.FromName == rel.ToName && inv.ToType == owner
+//@ spec recip(target Type, owner string, rel Rel) = exists k string :: k in target.Rels && reciprocates(target.Rels[k], owner, rel)
+//@ spec relOK(s *Schema, owner string, rel Rel) = rel.ToType != "" && hasType(s, rel.ToType) && (rel.ToName != "" ==> rel.FromType == owner && (exists j int :: isFirst(s, j, rel.ToType) && recip(s.Types[j], owner, rel)))
+//@ spec typeOK(s *Schema, t Type) = forall k string :: k in t.Rels ==> relOK(s, t.Name, t.Rels[k])
+//@ spec coherent(s *Schema) = forall i int :: 0 <= i && i < len(s.Types) ==> typeOK(s, s.Types[i])
+
+//@ func Schema.Check
+//@ props C15 C12
+//@ requires nonnil: s != nil
+//@ ensures sem: (len(result) == 0) == coherent(s)
+//@ loop 0 invariant errs-fresh: fresh(errs) && unchanged(heap[error]) && unchanged(heap[interface{}])
+//@ loop 0 invariant ok: len(errs) == 0 ==> (forall i int :: 0 <= i && i <= $idx ==> typeOK(s, s.Types[i]))
+//@ loop 0 invariant bad: len(errs) != 0 ==> (exists i int :: 0 <= i && i <= $idx && !typeOK(s, s.Types[i]))
+//@ loop 1 invariant errs-fresh: fresh(errs) && unchanged(heap[error]) && unchanged(heap[interface{}])
+//@ loop 1 invariant typ-is: $idx#0 >= 0 && $idx#0 < len(s.Types) && typ == s.Types[$idx#0]
+//@ loop 1 invariant ok: len(errs) == 0 ==> (forall i int :: 0 <= i && i < $idx#0 ==> typeOK(s, s.Types[i])) && (forall k string :: visited(k) ==> relOK(s, typ.Name, typ.Rels[k]))
+//@ loop 1 invariant bad: len(errs) != 0 ==> (exists i int :: 0 <= i && i < $idx#0 && !typeOK(s, s.Types[i])) || (exists k string :: visited(k) && k in typ.Rels && !relOK(s, typ.Name, typ.Rels[k]))
+//@ loop 2 invariant found-iff: found == (exists k string :: visited(k) && reciprocates(targetType.Rels[k], typ.Name, rel))
